@@ -598,12 +598,26 @@ func retrySibling(fn *Fn, m string) (bool, string) {
 		return false, "options are not n.retryOptions(ctx)"
 	}
 	// the retried function: a literal, or a local holding one literal
-	lit, _ := ast.Unparen(call.Args[0]).(*ast.FuncLit)
+	// (a conversion to the function's own type around either is transparent)
+	unconv := func(e ast.Expr) ast.Expr {
+		e = ast.Unparen(e)
+		for {
+			cv, ok := e.(*ast.CallExpr)
+			if !ok || len(cv.Args) != 1 {
+				return e
+			}
+			if tv, ok := fn.Info.Types[cv.Fun]; !ok || !tv.IsType() {
+				return e
+			}
+			e = ast.Unparen(cv.Args[0])
+		}
+	}
+	lit, _ := unconv(call.Args[0]).(*ast.FuncLit)
 	if lit == nil {
-		if v := fn.varOf(call.Args[0]); v != nil {
+		if v := fn.varOf(unconv(call.Args[0])); v != nil {
 			defs := fn.defsOf(v)
 			if len(defs) == 1 && defs[0].rhs != nil {
-				lit, _ = ast.Unparen(defs[0].rhs).(*ast.FuncLit)
+				lit, _ = unconv(defs[0].rhs).(*ast.FuncLit)
 			}
 		}
 	}
